@@ -57,7 +57,7 @@ func init() { streamVerdicts["C13"] = c13Verdict }
 // transmitted dictionary outgrow the limit.
 func TestC13(t *testing.T) {
 	rec := kit.Get("C13")
-	rapid.Check(t, func(t *rapid.T) {
+	runRapid(t, func(t *rapid.T) {
 		o := genOptions(t, rec)
 		genExtraOptions(t, &o, false)
 		big := pct(t, "big", map[bool]int{true: 8, false: 5}[thorough()])
